@@ -571,7 +571,65 @@ def r_state_closure(ctx, *entries):
     # a crash on a path that never binds a local breaks whatever the property promises about these entry points
     from .exc import r_unbound
     r_unbound(ctx, entries)
+    r_none(ctx, clo)
     return clo
+
+
+def r_none(ctx, fqs):
+    """an optional parameter (default None) is recognised by `is None` / `is not None`, never by its truth value: 0, an empty
+    map, an empty string and an empty list are values, not absences"""
+    run = ctx.run
+    run.rule('R-NONE', "every parameter whose default is None is tested for presence with `is None` / `is not None`; a truth-value "
+                       "test (`if p:`, `not p`, `p or d`, `x if p else y`) treats 0 / {} / '' / [] like a missing argument")
+    n = 0
+    for fq in sorted(fqs):
+        f = ctx.p.func(fq)
+        opt = {p for p, d in f.defaults.items() if isinstance(d, ast.Constant) and d.value is None}
+        if not opt:
+            continue
+        n += 1
+        hits = []
+        rebound = {t.id for x in ast.walk(f.node) if isinstance(x, (ast.Assign, ast.AugAssign, ast.AnnAssign))
+                   for tg in (x.targets if isinstance(x, ast.Assign) else [x.target]) for t in ast.walk(tg)
+                   if isinstance(t, ast.Name) and isinstance(t.ctx, ast.Store)}
+
+        def truthy_use(e):
+            """names of optional parameters whose truth value decides expression e"""
+            if isinstance(e, ast.Name) and e.id in opt and e.id not in rebound:
+                return [e.id]
+            if isinstance(e, ast.UnaryOp) and isinstance(e.op, ast.Not):
+                return truthy_use(e.operand)
+            if isinstance(e, ast.BoolOp):
+                out = []
+                for v in e.values:
+                    out += truthy_use(v)
+                return out
+            return []
+        for x in ast.walk(f.node):
+            if isinstance(x, (ast.FunctionDef, ast.Lambda)) and x is not f.node:
+                continue
+            if isinstance(x, (ast.If, ast.While, ast.IfExp, ast.Assert)):
+                for p in truthy_use(x.test):
+                    hits.append((x.lineno, p, ast.unparse(x.test)[:40]))
+            elif isinstance(x, ast.BoolOp) and isinstance(x.op, ast.Or) and isinstance(x.values[0], ast.Name) and \
+                    x.values[0].id in opt and x.values[0].id not in rebound:
+                hits.append((x.lineno, x.values[0].id, ast.unparse(x)[:40]))
+            elif isinstance(x, ast.comprehension):
+                for c_ in x.ifs:
+                    for p in truthy_use(c_):
+                        hits.append((getattr(c_, 'lineno', f.node.lineno), p, ast.unparse(c_)[:40]))
+        seen = set()
+        for line, p, txt in hits:
+            if (line, p) in seen:
+                continue
+            seen.add((line, p))
+            run.refute('R-NONE', f, 'presence-by-identity:%s' % p, line,
+                       "%s decides whether the optional argument `%s` was given by its truth value (`%s`): 0, an empty map / list / "
+                       "string are legitimate values and are silently treated as \"not given\"" % (f.name, p, txt),
+                       inputs='%s=0 / {} / [] / ""' % p)
+        if not hits:
+            run.ok('R-NONE', f, 'presence-by-identity', f.node.lineno, 'optional parameters are tested with `is None`', nontrivial=False)
+    return n
 
 
 def r_namesake(ctx, fqs):
